@@ -149,6 +149,19 @@ pub fn dump_sheet(ws: &Worksheet, p: &str, sec: Sections, d: &mut Dump) {
                 if !f.is_empty() {
                     d.insert(format!("{}/cell/{}/f", p, a1), f.to_string());
                 }
+                // the kind of formula is part of what a formula means (an array formula evaluates differently);
+                // "shared" is only a storage form of ordinary formulas and is not reported
+                if let Some(fo) = c.get_formula_obj() {
+                    match fo.get_formula_type() {
+                        CellFormulaValues::Array => {
+                            d.insert(format!("{}/cell/{}/ftype", p, a1), format!("array ref={}", fo.get_reference()));
+                        }
+                        CellFormulaValues::DataTable => {
+                            d.insert(format!("{}/cell/{}/ftype", p, a1), "dataTable".to_string());
+                        }
+                        _ => {}
+                    }
+                }
                 if let CellRawValue::RichText(rt) = c.get_raw_value() {
                     d.insert(format!("{}/cell/{}/rich", p, a1), rich_sig(rt));
                 }
